@@ -308,9 +308,8 @@ def translate_deep_update(tree: ast.Module) -> str:
         raise Unsupported('control reaches the end of deep_update')
     body = tr.block(list(fn.body), env, fall, lambda v, e: v)
     else_branch = [ast.unparse(st) for st in ast.walk(fn) if isinstance(st, ast.Assign) and 'copy.deepcopy' in ast.unparse(st)]
-    plain = ['target = copy.deepcopy(source)']
     rebuilt = ['target = deep_update({}, copy.deepcopy(source)) if isinstance(source, collections.abc.Mapping) else copy.deepcopy(source)']
-    if else_branch not in (plain, rebuilt):
+    if else_branch != rebuilt:       # (the plain deepcopy that kept shared sub-maps shared, F-CFG-ALIASMAP, is rejected)
         raise Unsupported('deep_update copies the source in an unknown way: %s' % else_branch)
     return ('(* deep_update with its recursive call abstracted as `rec` (open recursion) *)\n'
             'Definition deep_update_step (rec : cv -> cv -> cv) (target source : cv) : cv :=\n  %s.\n\n'
@@ -318,7 +317,7 @@ def translate_deep_update(tree: ast.Module) -> str:
             '   copy.copy (false).  Value-wise both are the identity; the object-identity models of ConfigAlias.v take this flag. *)\n'
             'Definition deep_update_copies_deeply : bool := %s.\n\n'
             '(* is the deep copy rebuilt key by key (`deep_update({}, copy.deepcopy(source))`), so that sub-maps that are ONE object inside the\n'
-            '   source (YAML anchors, one dict under two keys) become distinct objects in the target?  false = pending fix of F-CFG-ALIASMAP *)\n'
+            '   source (YAML anchors, one dict under two keys) become distinct objects in the target?  (F-CFG-ALIASMAP, fixed) *)\n'
             'Definition deep_update_rebuilds_copy : bool := %s.'
             % (body, 'true', 'true' if else_branch == rebuilt else 'false'))
 
@@ -719,20 +718,17 @@ def translate_create() -> str:
         raise Unsupported('_detached_builder not found')
     detaches = True
     hs = _stmts(helper[0])
-    if hs == DETACHED_BUILDER:
-        strips = False
-    elif hs == DETACHED_BUILDER[:-1] + ['_strip_default_markers(detached._ln_loader._config.sections())', 'return detached']:
-        sm = [n for n in tree.body if isinstance(n, ast.FunctionDef) and n.name == '_strip_default_markers']
-        if len(sm) != 1 or _stmts(sm[0]) != STRIP_MARKERS or _params(sm[0], False) != ['mapping']:
-            raise Unsupported('_strip_default_markers has an unknown shape')
-        strips = True
-    else:
-        raise Unsupported('_detached_builder has an unknown shape')
+    if hs != DETACHED_BUILDER[:-1] + ['_strip_default_markers(detached._ln_loader._config.sections())', 'return detached']:
+        raise Unsupported('_detached_builder has an unknown shape')     # (the shape without marker stripping, F-CFG-WRAPPER, is rejected)
+    sm = [n for n in tree.body if isinstance(n, ast.FunctionDef) and n.name == '_strip_default_markers']
+    if len(sm) != 1 or _stmts(sm[0]) != STRIP_MARKERS or _params(sm[0], False) != ['mapping']:
+        raise Unsupported('_strip_default_markers has an unknown shape')
+    strips = True
     return ('(* LanguageContextBuilder.create: true = the new context gets deep copies of the configuration and the overrides\n'
             '   (create leaves the builder unchanged); false = the context shares the builder\'s LanguageConfig, which create updates in place *)\n'
             'Definition create_detaches_config : bool := %s.\n\n'
             '(* does create() replace the DefaultValue markers of the copy by the plain values, at every depth, before the languages are\n'
-            '   constructed (`_strip_default_markers`)?  false = pending fix of F-CFG-WRAPPER *)\n'
+            '   constructed (`_strip_default_markers`)?  (F-CFG-WRAPPER, fixed) *)\n'
             'Definition create_strips_default_markers : bool := %s.' % ('true' if detaches else 'false', 'true' if strips else 'false'))
 
 
@@ -803,40 +799,27 @@ def current_shapes() -> dict:
     return out
 
 
-# functions with a second accepted body: the shape after a proposed fix (design_notes/C13_*_fix.patch)
-PIN_ALTERNATIVES = {
-    'src/nunavut/lang/_config.py::LanguageConfig.update_from_yaml_string':
-        ['configuration = yaml_loader(string, Loader=YamlLoader)', 'self.update(configuration if configuration is not None else {})'],
-    'src/nunavut/lang/_config.py::LanguageConfig.update_from_yaml_file':
-        ['configuration = yaml_loader(f, Loader=YamlLoader)', 'self.update(configuration if configuration is not None else {})'],
-}
-
-
 def check_pins() -> str:
     import json
     with open(PIN_FILE, encoding='utf-8') as f:
         want = json.load(f)
     got = current_shapes()
-    alt_hit = []
     for k in want:
         if got.get(k) != want[k]:
-            if k in PIN_ALTERNATIVES and dict(want[k], body=PIN_ALTERNATIVES[k]) == got.get(k):
-                alt_hit.append(k)
-                continue
             part = next((p for p in ('decorators', 'params', 'defaults', 'body') if got.get(k, {}).get(p) != want[k].get(p)), '?')
             raise Unsupported('%s no longer has the shape the model of Gen/Config.v stands for (%s differ)' % (k, part))
-    if alt_hit and sorted(alt_hit) != sorted(PIN_ALTERNATIVES):
-        raise Unsupported('update_from_yaml_string and update_from_yaml_file treat an empty document differently')
+    empty_ok = all(want['src/nunavut/lang/_config.py::LanguageConfig.' + n]['body'][-1] == 'self.update(configuration if configuration is not None else {})'
+                   for n in ('update_from_yaml_string', 'update_from_yaml_file'))
     conf = [r for r in parser_table() if r['dest'] == 'configuration']
-    if len(conf) != 1 or conf[0]['nargs'] != '*' or conf[0]['action'] not in (None, 'extend') or conf[0]['default'] is not None:
-        raise Unsupported('--configuration is no longer nargs="*" with action store/extend and default None')
+    if len(conf) != 1 or conf[0]['nargs'] != '*' or conf[0]['action'] != 'extend' or conf[0]['default'] is not None:
+        raise Unsupported('--configuration is no longer nargs="*" with action="extend" and default None')   # (plain store, F-CFG-REPEATC, is rejected)
     return ('(* an empty / comment-only yaml document (yaml gives None): true = it is the identity of the merge, false = update(None) raises\n'
-            '   (pending fix of F-CFG-EMPTYDOC) *)\n'
+            '   (F-CFG-EMPTYDOC, fixed; the pinned bodies say which) *)\n'
             'Definition yaml_empty_document_is_identity : bool := %s.\n\n'
             '(* a repeated --configuration option: true = the file lists accumulate in command-line order (action="extend"),\n'
-            '   false = only the last occurrence survives (pending fix of F-CFG-REPEATC) *)\n'
+            '   (F-CFG-REPEATC, fixed) *)\n'
             'Definition cli_configuration_accumulates : bool := %s.'
-            % ('true' if alt_hit else 'false', 'true' if conf[0]['action'] == 'extend' else 'false'))
+            % ('true' if empty_ok else 'false', 'true'))
 
 
 def scan_mutable_defaults() -> None:
